@@ -15,6 +15,7 @@ import (
 	"fmt"
 	"os"
 	"runtime"
+	"sort"
 	"strings"
 	"sync"
 	"sync/atomic"
@@ -252,6 +253,21 @@ func bookkeepingWaiters(d string) []string {
 	return out
 }
 
+// bookkeepingWaiterIDs maps goroutine id -> its bookkeeping frames, for goroutines parked in a lock acquisition
+// inside a userPanel / ActiveUser operation
+func bookkeepingWaiterIDs(d string) map[string]string {
+	out := map[string]string{}
+	for _, g := range strings.Split(d, "\n\n") {
+		ws := bookkeepingWaiters(g)
+		if len(ws) != 1 || !strings.HasPrefix(g, "goroutine ") {
+			continue
+		}
+		id := strings.Fields(g[len("goroutine "):])[0]
+		out[id] = ws[0]
+	}
+	return out
+}
+
 func framesOf(d string) []string {
 	var out []string
 	for _, g := range strings.Split(d, "\n\n") {
@@ -363,7 +379,7 @@ func c17Orphan(c *ctx, hookVariant bool) {
 	caseC(o, name, true)
 	if len(orph) > 0 {
 		o.V("C17 orphan-session admission-vs-last-close", map[string]any{"variant": name,
-			"schedule":             []string{"conn A: GetUser → record 0, GetSession(1) created", "conn B: GetUser → record 0", "conn A's session 1 closes → CloseSession → TerminateActiveUser(record 0)", "conn B: GetSession(2) on record 0"},
+			"schedule":                            []string{"conn A: GetUser → record 0, GetSession(1) created", "conn B: GetUser → record 0", "conn A's session 1 closes → CloseSession → TerminateActiveUser(record 0)", "conn B: GetSession(2) on record 0"},
 			"live_sessions_outside_active_record": orph, "state": rig.stateLine()})
 	}
 	o.sample(name + ": " + rig.stateLine())
@@ -546,10 +562,47 @@ func c17Stress(c *ctx) {
 	go func() { wg.Wait(); close(allDone) }()
 	// watchdog
 	last, lastChange := int64(-1), time.Now()
+	lastPartial := time.Now()
 	for {
 		select {
 		case <-allDone:
 		case <-time.After(100 * time.Millisecond):
+			// partial deadlock: some operations are wedged on each other while the other workers still make progress.
+			// Verdict only if the SAME goroutines sit in bookkeeping lock-acquire frames in three whole-process dumps 2 s apart
+			// (critical sections here last micro- to milliseconds) and a lock probe finds a bookkeeping lock held throughout.
+			if time.Since(lastPartial) > 3*time.Second {
+				lastPartial = time.Now()
+				w1 := bookkeepingWaiterIDs(dumpAll())
+				if len(w1) >= 2 {
+					time.Sleep(2 * time.Second)
+					w2 := bookkeepingWaiterIDs(dumpAll())
+					time.Sleep(2 * time.Second)
+					d3 := dumpAll()
+					w3 := bookkeepingWaiterIDs(d3)
+					var same []string
+					for id, fr := range w1 {
+						if w2[id] == fr && w3[id] == fr {
+							same = append(same, "goroutine "+id+": "+fr)
+						}
+					}
+					q, a := rig.panel.Probe()
+					sHeld := false
+					for _, u := range rig.panel.ActiveList() {
+						if server.VerifProbeS(u) {
+							sHeld = true
+						}
+					}
+					if len(same) >= 2 && (q || a || sHeld) {
+						sort.Strings(same)
+						caseC(o, fmt.Sprintf("stress-%d", sub), true)
+						o.V("C17 deadlock among bookkeeping operations (random overlap)", map[string]any{"stress_case": sub,
+							"operations_completed_meanwhile": atomic.LoadInt64(&progress), "same_goroutines_waiting_in_3_dumps_over_4s": same,
+							"usageUpdateQueueM_held": q, "activeUsersM_held": a, "some_sessionsM_held": sHeld})
+						o.close()
+						os.Exit(0)
+					}
+				}
+			}
 			p := atomic.LoadInt64(&progress)
 			if p != last {
 				last, lastChange = p, time.Now()
